@@ -125,8 +125,12 @@ def shared(v):
 Z3 = os.environ.get("VERIF_Z3", "/usr/bin/z3")
 
 
-def solve(script, timeout_s=60, solver="z3"):
-    """-> (status 'sat'|'unsat'|'unknown'|'error', model dict, seconds, raw)"""
+def solve(script, timeout_s=60, solver="portfolio"):
+    """-> (status 'sat'|'unsat'|'unknown'|'error', model dict, seconds, raw)
+    portfolio: /usr/bin/z3 (4.8.12) and z3-new (5.1.0) race; the first decisive answer wins.  Their
+    nlsat implementations have very different blind spots on these queries."""
+    if solver == "portfolio":
+        return solve_portfolio(script, timeout_s)
     t0 = time.time()
     if solver == "z3":
         cmd = [Z3, "-in", "-smt2", "-T:%d" % timeout_s]
@@ -134,6 +138,7 @@ def solve(script, timeout_s=60, solver="z3"):
         cmd = ["z3-new", "-in", "-smt2", "-T:%d" % timeout_s]
     else:
         cmd = ["cvc5", "--lang", "smt2", "--tlimit=%d" % (timeout_s * 1000), "--produce-models", "--nl-cov"]
+        script = "\n".join(l for l in script.split("\n") if "pp.decimal" not in l)
     try:
         p = subprocess.run(cmd, input=script, stdout=subprocess.PIPE, stderr=subprocess.PIPE, text=True,
                            timeout=timeout_s + 10)
@@ -153,6 +158,61 @@ def solve(script, timeout_s=60, solver="z3"):
     if first in ("unknown", "timeout"):
         return "unknown", {}, dt, out
     return "error", {}, dt, out
+
+
+def solve_portfolio(script, timeout_s):
+    import tempfile
+    t0 = time.time()
+    procs = []
+    for name, cmd in (("z3", [Z3, "-in", "-smt2", "-T:%d" % timeout_s]), ("z3new", ["z3-new", "-in", "-smt2", "-T:%d" % timeout_s])):
+        try:
+            p = subprocess.Popen(cmd, stdin=subprocess.PIPE, stdout=subprocess.PIPE, stderr=subprocess.DEVNULL, text=True)
+            p.stdin.write(script)
+            p.stdin.close()
+            procs.append((name, p))
+        except OSError:
+            pass
+    result = None
+    pending = dict(procs)
+    outs = {}
+    while pending and time.time() - t0 < timeout_s + 10:
+        for name, p in list(pending.items()):
+            if p.poll() is not None:
+                outs[name] = p.stdout.read()
+                del pending[name]
+                st = classify(outs[name])
+                if st[0] in ("sat", "unsat"):
+                    result = (st[0], st[1], time.time() - t0, name + ": " + outs[name][:1500])
+                    break
+        if result:
+            break
+        time.sleep(0.01)
+    for name, p in pending.items():
+        try:
+            p.kill()
+            p.wait(timeout=2)
+        except Exception:
+            pass
+    if result:
+        return result
+    if any(classify(o)[0] == "error" for o in outs.values()) and not any(classify(o)[0] == "unknown" for o in outs.values()):
+        return "error", {}, time.time() - t0, " | ".join(o[:500] for o in outs.values())
+    return "unknown", {}, time.time() - t0, "timeout/unknown: " + " | ".join(o[:200] for o in outs.values())
+
+
+def classify(out):
+    first = out.strip().split("\n")[0].strip() if out.strip() else ""
+    if "(error" in out and first not in ("sat", "unsat"):
+        return ("error", {})
+    if first in ("sat", "unsat") and "(error" in out and out.index("(error") < out.index(first):
+        return ("error", {})
+    if first == "unsat":
+        return ("unsat", {})
+    if first == "sat":
+        return ("sat", parse_model(out))
+    if first in ("unknown", "timeout"):
+        return ("unknown", {})
+    return ("error", {})
 
 
 def parse_model(out):
